@@ -238,10 +238,13 @@ func idSet(xs []int) map[int]bool { return setOf(xs) }
 // the call returned a report without error (EnrichedMatch / Scan) — then no
 // matcher may be one that must fail; for Match the failing matchers are left
 // out and their number is returned.
-func refCheck(sc *scenario, vr *claircore.VulnerabilityReport, cancelled bool, enriched bool, bad func(class, f string, a ...any)) (nfail int) {
+func refCheck(sc *scenario, runs []bool, vr *claircore.VulnerabilityReport, cancelled bool, enriched bool, bad func(class, f string, a ...any)) (nfail int) {
 	recs := wantRecords(sc)
 	want := map[int]map[int]int{}
 	for i := range sc.matchers {
+		if !runs[i] {
+			continue
+		}
 		o := refMatcher(sc, i, recs, cancelled)
 		if o.fails {
 			nfail++
